@@ -10,14 +10,14 @@ The numbers below are read from the evidence files of one quick run (from /verif
 thorough run of every check on the final state of /verif and /repo {note}. "evaluations" counts
 oracle evaluations (a case run under two build profiles counts twice; a damage case counts once per profile), "distinct
 non-trivial" the distinct fingerprints among the evaluations in which the monitors had something to observe (rule text in
-each evidence file). Wall times are those of a 16-core machine with nothing else running. Every count is measured by the
-run that wrote the evidence file.
+each evidence file). Wall times were measured on the 16-core sandbox while other runs were in progress (on the idle machine
+the quick checks take between 3 s and about 60 s each). Every count is measured by the run that wrote the evidence file.
 
 {table}
-Sanitizers and interpreters in the thorough tier: AddressSanitizer for C01 (64 cases), C02 (96), C06 (3000), C07 and C13
-(96); ThreadSanitizer (`-Zbuild-std`) for C07 (pure-Rust decoder and real codecs), C08 (12 creations) and C15 (72 cases, the
-parallel sort and index assignment); Miri (Tree Borrows) for C07 (3-reader scenario, 16 processes x 2 seeds) and for C13/C02
-round trips (6 seeds); valgrind memcheck for C06 (240 cases). A report with library frames is a violation, reports wholly
+Sanitizers and interpreters in the thorough tier: AddressSanitizer for C01 (64 cases), C02 (96), C06 (3000), C07 (12) and C13
+(96); ThreadSanitizer (`-Zbuild-std`) for C07 (12 cases, pure-Rust decoder and real codecs), C08 (12 creations) and C15 (72 cases,
+the parallel sort and index assignment); Miri (Tree Borrows) for C07 (3-reader scenario, 16 processes x 2 seeds = 32 executions)
+and for C13/C02 round trips (6 seeds); valgrind memcheck for C06 (240 cases). A report with library frames is a violation, reports wholly
 inside third-party frames are listed in the evidence and not judged.
 
 """
